@@ -206,6 +206,10 @@ type Knobs struct {
 	// while sending them in whatever encoding the other knobs chose.  Such a
 	// signature is NOT valid over the received bytes.
 	SignCanonical bool
+	// PSSSalt, when non-zero, makes an RSA peer byzantine: it signs RSASSA-PSS
+	// with this salt length instead of the hash length RFC 8230 fixes (-1:
+	// the maximum that fits).  Such a signature is not a valid COSE signature.
+	PSSSalt int
 }
 
 func genKnobs(t *tape.Tape) Knobs {
@@ -314,6 +318,10 @@ func (r *Run) foreignLayer(l Layer, k Knobs) ForeignLayer {
 
 // foreignSign signs with the standard library only.
 func foreignSign(k *KeyPair, tbs []byte, ent *Entropy) []byte {
+	return foreignSignSalt(k, tbs, ent, 0)
+}
+
+func foreignSignSalt(k *KeyPair, tbs []byte, ent *Entropy, salt int) []byte {
 	switch priv := k.Priv.(type) {
 	case *ecdsa.PrivateKey:
 		h := refcose.HashFor(k.Alg)
@@ -324,7 +332,14 @@ func foreignSign(k *KeyPair, tbs []byte, ent *Entropy) []byte {
 		return refcose.ECDSASigBytes(priv.Curve, rr, ss)
 	case *rsa.PrivateKey:
 		h := refcose.HashFor(k.Alg)
-		sig, err := rsa.SignPSS(ent, priv, h, refcose.Digest(h, tbs), &rsa.PSSOptions{SaltLength: h.Size(), Hash: h})
+		sl := h.Size()
+		switch {
+		case salt == -1:
+			sl = priv.Size() - h.Size() - 2
+		case salt > 0:
+			sl = salt
+		}
+		sig, err := rsa.SignPSS(ent, priv, h, refcose.Digest(h, tbs), &rsa.PSSOptions{SaltLength: sl, Hash: h})
 		if err != nil {
 			panic(err)
 		}
@@ -367,7 +382,7 @@ func (r *Run) ForeignIssue(s *MsgSpec, k Knobs, ent *Entropy, detached bool, csi
 		for _, sg := range s.Signers {
 			sl := r.foreignLayer(sg.Layer, k)
 			tbs := refcose.SigStructure(body.SignContent, sl.SignContent, s.External, s.Payload)
-			sig := foreignSign(sg.Key, tbs, ent)
+			sig := foreignSignSalt(sg.Key, tbs, ent, k.PSSSalt)
 			if csig != nil {
 				if c := csig(&ForeignParent{Kind: refcose.PSignature, Prot: sl.ProtContent, Payload: sig}); c != nil {
 					sl.Unprot.Elems = append(sl.Unprot.Elems, c.Elems...)
@@ -387,7 +402,7 @@ func (r *Run) ForeignIssue(s *MsgSpec, k Knobs, ent *Entropy, detached bool, csi
 		arr = refcbor.Array(body.ProtBstr, body.Unprot, payloadItem, sa)
 	} else {
 		tbs := refcose.SigStructure1(body.SignContent, s.External, s.Payload)
-		sig := foreignSign(s.Key, tbs, ent)
+		sig := foreignSignSalt(s.Key, tbs, ent, k.PSSSalt)
 		if csig != nil {
 			if c := csig(&ForeignParent{Kind: refcose.PSign1, Prot: body.ProtContent, Payload: s.Payload, Sig: sig}); c != nil {
 				body.Unprot.Elems = append(body.Unprot.Elems, c.Elems...)
@@ -415,3 +430,13 @@ type ForeignParent struct {
 
 // publicOf returns the verification key of a pair.
 func publicOf(k *KeyPair) crypto.PublicKey { return k.Pub }
+
+// bigOK decides whether a run may use the 64 KiB boundary sizes (payloads and
+// protected headers of 65535/65536 bytes): one run in 60 in the quick tier,
+// one in 8 in the thorough tier.
+func bigOK(r *Run, label string) bool {
+	if r.Thorough() {
+		return r.T.Bool(1, 8, label)
+	}
+	return r.T.Bool(1, 60, label)
+}
